@@ -109,6 +109,40 @@ func c21Build(r *vkit.Run, t *testing.T, wi int) *c21World {
 			}
 		}
 	}
+	// ... and every series that has points in a shard must be listed by that shard's index: the
+	// reads under test find their series through the index (a delete defect that drops a series
+	// with data from the index leaves the direct reads above intact)
+	for _, g := range env.Groups() {
+		listed, err := env.SeriesKeys(nil, []uint64{g.ShardID}, nil)
+		if err != nil {
+			r.Inconclusive("setup_series_listing_failed")
+			env.Close()
+			return nil
+		}
+		have := map[string]bool{}
+		for _, k := range listed {
+			have[k] = true
+		}
+		for _, skey := range x.m.SeriesKeys() {
+			inShard := false
+			for _, f := range x.m.Fields(skey) {
+				if len(x.m.Read(skey, f, g.Start, g.End-1, true)) > 0 {
+					inShard = true
+				}
+			}
+			if inShard && !have[skey] {
+				if setupDeletes == 0 {
+					r.Violation("series_with_points_not_indexed", map[string]string{"via": "shard_index", "setup_deletes": "0"},
+						map[string]any{"world": wi, "setup": x.log, "series": skey, "shard": g.ShardID, "listed": listed})
+				} else {
+					r.Event("worlds_skipped_setup_delete_defect", 1)
+					r.Event("worlds_skipped_series_with_points_not_indexed", 1)
+				}
+				env.Close()
+				return nil
+			}
+		}
+	}
 	return x
 }
 
